@@ -32,7 +32,8 @@ MANIFEST = {
             "copy never raises' are NOT proved in general (decide-checked on concrete 3-level trees; negation witness for "
             "Operation variables moved between sets); they are covered by the tie and the oracle. Tie: seeded edit scripts and "
             "unrelated pairs over 7 root classes built from real SDK objects, full vars()-level state + id() map + detached "
-            "objects + exception compared with the model after every update.",
+            "objects + exception compared with the model after every update."
+            " Ordered lists: when no object of the copy's set has a namesake in the live set (generated list item names are fresh per list object) the refreshed set holds exactly the copy's objects in the copy's order, for any number of items (c12_list_refreshed_in_copy_order).",
     "note": "partial: deep canon equality and the assembled namespace invariant are exercised by correspondence/oracle, not proved "
             "for all trees; SubmodelElementList add-hook constraints not modelled; dict order of unordered NamespaceSets and the "
             "plain/sets interleaving abstracted (only visible in the partial state after a raise, compared structurally)",
